@@ -46,6 +46,72 @@ def prec_expr(rng, depth, typ):
     return ("un", "!", prec_expr(rng, depth - 1, "bool"))
 
 
+def temp_args(rng, typ):
+    """argument expressions of one type: temporaries of every provenance, and named values"""
+    if typ == "str":
+        return rng.choice([("bin", "+", ("str", " "), ("str", "a")), ("tostr", ("int", rng.randrange(0, 99))), ("call", "mk_s", []), ("call", "mk_s2", []),
+                           ("tern", ("bool", True), ("bin", "+", ("str", "t"), ("str", "u")), ("str", "w")), ("call", "idt", [("bin", "+", ("str", "i"), ("str", "d"))]),
+                           ("var", "gs"), ("str", "lit"), ("call", "idt", [("var", "gs")]), ("interp", [("str", "n"), ("int", 4)])])
+    if typ == "int":
+        return rng.choice([("bin", "+", ("int", 1), ("int", rng.randrange(0, 9))), ("call", "mk_i", []), ("size", ("str", "abc")), ("un", "-", ("int", 4)),
+                           ("call", "idt", [("bin", "*", ("int", 3), ("int", 3))]), ("var", "gi"), ("int", 7), ("call", "idt", [("var", "gi")])])
+    if typ == "bool":
+        return rng.choice([("bin", "<", ("int", 1), ("int", 2)), ("un", "!", ("bool", True)), ("var", "gb"), ("bool", True), ("call", "idt", [("bin", "==", ("int", 1), ("int", 1))])])
+    return rng.choice([("vec", [("int", 1), ("int", 2)]), ("call", "mk_v", []), ("var", "gv"), ("call", "idt", [("vec", [("int", 5)])]), ("call", "idt", [("var", "gv")])])
+
+
+def temp_program(rng):
+    """What a callee does to a copy of its parameter must not reach the parameter - whatever the argument was (a temporary of any
+    provenance or a named value) and wherever the copy is declared."""
+    prog = [("def", "mk_s", [], None, [("return", ("bin", "+", ("str", "m"), ("str", "k")))]),
+            ("def", "mk_s2", [], None, [("decl", "loc", ("str", "local")), ("return", ("var", "loc"))]),
+            ("def", "mk_i", [], None, [("return", ("bin", "+", ("int", 20), ("int", 2)))]),
+            ("def", "mk_v", [], None, [("return", ("vec", [("int", 3), ("int", 4)]))]),
+            ("def", "idt", [("q", None)], None, [("return", ("var", "q"))]),
+            ("decl", "gs", ("str", "named")), ("decl", "gi", ("int", 40)), ("decl", "gb", ("bool", False)), ("decl", "gv", ("vec", [("int", 8), ("int", 9)]))]
+    nf = rng.randrange(1, 4)
+    sigs = []
+    for fi in range(nf):
+        typ = rng.choice(["str", "str", "int", "bool", "vec"])
+        init = rng.choice([("var", "p"), ("var", "p"), ("tern", ("bin", "<", ("int", 1), ("int", 2)), ("var", "p"), ("var", "p")),
+                           ("tern", ("bool", False), ("var", "p"), ("var", "p")), ("call", "idt", [("var", "p")])])
+        kw = rng.choice(["decl", "auto"])
+        mut = {"str": [("assign", ("var", "v"), "=", ("str", "xyz")), ("assign", ("var", "v"), "+=", ("str", "q"))],
+               "int": [("assign", ("var", "v"), "=", ("int", 99)), ("assign", ("var", "v"), "+=", ("int", 5)), ("incr", "v", "++"), ("assign", ("var", "v"), "*=", ("int", 2))],
+               "bool": [("assign", ("var", "v"), "=", ("un", "!", ("var", "v")))],
+               "vec": [("assign", ("var", "v"), "=", ("vec", [("int", 9)])), ("assign", ("var", "v"), "=", ("vec", []))]}[typ]
+        inner = [(kw, "v", init), rng.choice(mut)]
+        if rng.random() < 0.4:
+            inner.append(rng.choice(mut))
+        inner.append(("print", ("var", "v")))
+        shape = rng.randrange(5)
+        if shape == 0:
+            body = inner
+        elif shape == 1:
+            body = [("block", inner)]
+        elif shape == 2:
+            body = [("if", [(("bin", "<", ("int", 1), ("int", 2)), inner)], None)]
+        elif shape == 3:
+            body = [("rfor", "x", ("vec", [("int", 1), ("int", 2)]), [("block", inner)])]
+        else:
+            body = [("try", inner, "e", [("print", ("str", "caught"))], None)]
+        obs = ("size", ("var", "p")) if typ in ("str", "vec") and rng.random() < 0.5 else ("var", "p")
+        body = body + [("print", ("var", "p")), ("return", obs)]
+        ptype = typ if rng.random() < 0.3 else None
+        name = "f%d" % fi
+        if rng.random() < 0.3:
+            prog.append(("decl", name, ("lambda", [], ["p"], body)))
+        else:
+            prog.append(("def", name, [("p", ptype)], None, body))
+        sigs.append((name, typ))
+    for _ in range(rng.randrange(3, 7)):
+        name, typ = rng.choice(sigs)
+        call = ("call", name, [temp_args(rng, typ)])
+        prog.append(rng.choice([("print", call), ("decl", "r%d" % len(prog), call), ("expr", call)]))
+    prog += [("print", ("var", "gs")), ("print", ("var", "gi")), ("print", ("var", "gb")), ("print", ("var", "gv"))]
+    return prog
+
+
 def observe_model(prog, deviations=()):
     it = interp.Interp(deviations)
     try:
@@ -72,6 +138,9 @@ def run(ctx, tier, seed, scale=1.0):
         e = prec_expr(rng, rng.randrange(2, 5), rng.choice(["int", "int", "bool"]))
         prog = [("expr", e)]
         progs.append(("precedence", prog, mp.e(e) + "\n"))
+    for i in range(int((600 if quick else 30000) * scale)):
+        prog = temp_program(rng)
+        progs.append(("temporaries", prog, printer.Printer().program(prog)))
     cases = [["S", src] for _, _, src in progs]
     res, hf = vlib.run_cases(exe, cases, "c03", timeout_s=120, batch=32)
     ctx.harness_failures += hf
@@ -119,6 +188,8 @@ def run(ctx, tier, seed, scale=1.0):
     ctx.rule = ("family 'program': chailang programs over the whole modelled core (int/bool/string expressions, block scoping and shadowing, copies vs "
                 "references/parameters/captures, if/else-if/else, while/for/ranged-for with break/continue, switch with fall-through, functions with recursion, "
                 "typed parameters, guards, early return and parameter mutation, lambdas with captures, script classes, vectors, try/catch/finally/throw); "
+                "family 'temporaries': a callee declares a copy of its parameter (plain, through ?:, through a function; in a block, if, ranged-for, try), "
+                "mutates the copy, and parameter, argument and copy are observed - for arguments that are temporaries of every provenance and named values; "
                 "family 'precedence': int/bool expressions printed with minimal parentheses; non-trivial = programs of >= 6 lines and every precedence "
                 "expression; distinct by source")
     ctx.assumptions += ["the reference interpreter is my reading of cheatsheet.md / the grammar notes; constructs the documentation does not pin down are not generated",
